@@ -428,7 +428,7 @@ fn main() {
         let ranges = [(1, 1), (1, 2), (1, 3), (2, 2), (2, 3), (3, 3)];
         let grid = [0.0f32, 0.25, 1.0 / 3.0, 0.5, 2.0 / 3.0, 0.75, 1.0];
         let test = vec!["bb aa bb aa qq aa".to_string(), String::new()];
-        let reps = if thorough { 6 } else { 2 };
+        let reps = if thorough { 4 } else { 2 };
         for (ci, c) in corpora.iter().enumerate() {
             for rep in 0..reps {
                 let k = ci * reps + rep;
@@ -444,7 +444,7 @@ fn main() {
     }
 
     // ---- (b) structured random, ASCII, default tokeniser (mode 0)
-    let nrandom = if thorough { 12000 } else { 3000 };
+    let nrandom = if thorough { 6000 } else { 3000 };
     let (maxdocs, maxlen) = if thorough { (12, 15) } else { (8, 10) };
     for _ in 0..nrandom {
         let mut r = rng.fork();
@@ -460,7 +460,7 @@ fn main() {
     }
 
     // ---- (c) function tokenisers and custom regexes (mode 1): empty tokens, one-letter tokens, tokens containing spaces
-    let nfn = if thorough { 3000 } else { 500 };
+    let nfn = if thorough { 1500 } else { 500 };
     for _ in 0..nfn {
         let mut r = rng.fork();
         let tok = match r.below(4) { 0 => Tok::FnSpace, 1 => Tok::FnSemi, 2 => Tok::Regex(r"\w+".into()), _ => Tok::Regex(r"[^ ]+".into()) };
@@ -477,7 +477,7 @@ fn main() {
     }
 
     // ---- (d) non-ASCII text (mode 1): combining characters, full-width forms, ligatures, non-ASCII case
-    let nuni = if thorough { 2000 } else { 400 };
+    let nuni = if thorough { 1200 } else { 400 };
     for _ in 0..nuni {
         let mut r = rng.fork();
         let nw = 2 + r.below(5) as usize;
@@ -508,5 +508,6 @@ fn main() {
         g.malformed(&s, "regex");
     }
 
+    let _ = std::fs::remove_dir_all(&scratch);
     out.finish("corpora over small word alphabets (repeats, empty documents, one-letter words, mixed case, punctuation, OOV words in unseen documents): exhaustive for <= 2 documents of <= 3 tokens over 2 words, random ASCII (model tokenises), function tokenisers / custom regexes and non-ASCII text (harness tokenises); settings: all n-gram ranges 1<=min<=max<=3, document-frequency windows on the grid {0,1/4,1/3,1/2,2/3,3/4,1} + k/n + >1 + NaN, stop words drawn from the occurring n-grams, caps 0..|candidates|+1, fixed vocabularies, three idf methods; a case is non-trivial when the fitted vocabulary has >= 2 entries and some count is stored; distinct = distinct (corpus, settings) hashes");
 }
